@@ -4,7 +4,7 @@ the first-run records."""
 import glob, json, os, re
 HERE = os.path.dirname(os.path.dirname(os.path.abspath(__file__)))
 first = {}
-for f, wave in (('.scratch/results_round1.jsonl', ''), ('.scratch/results_w2_first.jsonl', 'w2'), ('.scratch/results_w3_first.jsonl', 'w3'), ('.scratch/results_w4_first.jsonl', 'w4'), ('.scratch/results_w5_first.jsonl', 'w5'), ('.scratch/results_w6_first.jsonl', 'w6'), ('.scratch/results_w7_first.jsonl', 'w7'), ('.scratch/results_w8_first.jsonl', 'w8')):
+for f, wave in (('.scratch/results_round1.jsonl', ''), ('.scratch/results_w2_first.jsonl', 'w2'), ('.scratch/results_w3_first.jsonl', 'w3'), ('.scratch/results_w4_first.jsonl', 'w4'), ('.scratch/results_w5_first.jsonl', 'w5'), ('.scratch/results_w6_first.jsonl', 'w6'), ('.scratch/results_w7_first.jsonl', 'w7'), ('.scratch/results_w8_first.jsonl', 'w8'), ('.scratch/results_w9_first.jsonl', 'w9')):
     p = os.path.join(HERE, f)
     if os.path.exists(p):
         for l in open(p):
@@ -15,7 +15,7 @@ for f, wave in (('.scratch/results_round1.jsonl', ''), ('.scratch/results_w2_fir
             if c: first['%s-%s%s' % (r['pid'], wave, x)] = {0: 'missed', 1: 'caught', 3: 'inconclusive'}.get(c['rc'], str(c['rc']))
 FIX = json.load(open(os.path.join(HERE, 'tools', 'seeded_notes.json')))
 first.update(FIX.get('_first', {}))
-W = {w: [sum(1 for k, v in first.items() if ('-' + w) in k and v.startswith('caught')), sum(1 for k in first if ('-' + w) in k)] for w in ('w3', 'w4', 'w5', 'w6', 'w7', 'w8')}
+W = {w: [sum(1 for k, v in first.items() if ('-' + w) in k and v.startswith('caught')), sum(1 for k in first if ('-' + w) in k)] for w in ('w3', 'w4', 'w5', 'w6', 'w7', 'w8', 'w9')}
 rows = []
 for mp in sorted(glob.glob(os.path.join(HERE, 'seeded', '*', 'meta.json'))):
     m = json.load(open(mp))
@@ -37,7 +37,7 @@ from /verif), every one confirmed by `tools/seedtest.py` in a scratch worktree: 
 tests still pass with it, the author's demonstration exits 0 without and non-zero with it.  Kept under `seeded/<id>/` (patch.diff,
 demo.py, the author's README.md, meta.json).  "first run" is the verdict of the property's own quick check as it was when the change
 arrived (before anything was strengthened in response); "now" lists the checks that report a VIOLATION on the patched tree at the
-final state.  `w2`..`w8` = later waves (w3 to w8 were run *held out*: the checks were frozen and committed before the changes were
+final state.  `w2`..`w9` = later waves (w3 to w9 were run *held out*: the checks were frozen and committed before the changes were
 written), whose authors were told what the earlier waves had tried and asked for something different.
 
 | id | what the change does (author's words, truncated) | first run | now caught by | witness monitors | what was added after a miss |
@@ -79,8 +79,15 @@ earlier waves had touched least): first run %d/%d caught (one further change mad
 kept); the misses added refused pieces inside a stream, non-bytes AES blocks, a cold-interpreter probe of the module-level
 component functions, the customary Skein output sizes, `(stale buffer, bitlen=0)` pieces, totals of exactly 64 KiB, the CRC-32
 polynomial in wider registers, long rewinds, operator results as new vectors, equal couples, and MD6 in its default and
-sequential configurations inside C10.  The final state catches all %d kept changes.
-''' % (len(rows), '\n'.join(rows), W['w3'][0], W['w3'][1], W['w4'][0], W['w4'][1], W['w5'][0] , W['w5'][1] - 1, W['w6'][0], W['w6'][1] - 1, W['w7'][0], W['w7'][1], W['w8'][0] - 1, W['w8'][1] - 1, len(rows))
+sequential configurations inside C10.  After wave 8 the checks caught every change kept so far.  Wave 9 (a last, small
+held-out wave written when the checks had long been frozen at commit 000ebea; authors given the property text only and a
+ten-minute budget): first run %d/%d caught, so nothing had to be strengthened.  What the ten changes were: state cached at class
+level under too small a key (Skein initial state without the nonce, RC4 permutation handed out uncopied, a counter's parsed start
+value surviving `setup()`), a mutable default argument poisoning later `exactsum` queries, a reset skipped after a refused TLSH
+input, and numeric edges inside one call (SHA padding at 447 mod 512 bits, Keccak rates below a byte with two or more blocks,
+`-Bits(0,w)` unmasked, `short - long` vectors, an empty final piece after aligned updates).  %d of the %d kept changes are caught
+at the final state.
+''' % (len(rows), '\n'.join(rows), W['w3'][0], W['w3'][1], W['w4'][0], W['w4'][1], W['w5'][0] , W['w5'][1] - 1, W['w6'][0], W['w6'][1] - 1, W['w7'][0], W['w7'][1], W['w8'][0] - 1, W['w8'][1] - 1, W['w9'][0], W['w9'][1], sum(1 for r in rows if '**none**' not in r), len(rows))
 p = os.path.join(HERE, 'DESIGN.md')
 s = open(p).read()
 if '## 15. Seeded' in s:
